@@ -54,7 +54,9 @@ PARTIAL = []
 
 STRING_DEFS = ["@string{abc = {V1}}", '@string{abc = "V2"}', "@string{ABC = {V3}}", "@string{xy = abc}", "@string{abc = 5}",
                "@string{abc # abc = {HASH}}"]
-FIELD_VALUES = ["abc", "ABC", "Abc", "{abc}", '"abc"', "abc # abc", "abc # xy", "undef", "12", "xy", '"abc" # abc', "{abc", '"']
+FIELD_VALUES = ["abc", "ABC", "Abc", "{abc}", '"abc"', "abc # abc", "abc # xy", "undef", "12", "xy", '"abc" # abc', "{abc", '"',
+                # names that BibTeX styles predefine as macros: without an @string in the document they are undefined names
+                "jan", "mar", "dec", "acm"]
 ENTRY_KEYS = ["e1", "e2"]
 
 
